@@ -37,7 +37,15 @@ func (e *MathExpression) AcceptExpressionAtom(atom *ExpressionAtom) error {
 	return errors.New("ExpressionAtom already set twice ")
 }
 
-func (e *MathExpression) Evaluate(dc *context.DataContext, Vars map[string]reflect.Value) (reflect.Value, error) {
+func (e *MathExpression) Evaluate(dc *context.DataContext, Vars map[string]reflect.Value) (mv reflect.Value, err error) {
+
+	//an operand that makes the arithmetic panic (e.g. an interface value) is an arithmetic fault of this expression
+	defer func() {
+		if p := recover(); p != nil {
+			mv = reflect.ValueOf(nil)
+			err = errors.New(fmt.Sprintf("line %d, column %d, code: %s, %+v", e.LineNum, e.Column, e.Code, p))
+		}
+	}()
 
 	//priority to calculate single value
 	if e.ExpressionAtom != nil {
